@@ -632,8 +632,10 @@ func run(r *mc.Run) {
 			}
 			runCase(r, e, k, false)
 			if len(k.Faults) > 0 {
+				r.Sample("fault-case", k)
 				r.Add("fault_cases", 1)
 			} else {
+				r.Sample("no-fault-case", k)
 				r.Add("nofault_cases", 1)
 			}
 		})
